@@ -183,3 +183,12 @@ package postgresql
 //@   props C12 C14
 //@   safety
 //@   requires 1 <= packet.dataLength && packet.dataLength - 1 <= buflen(packet.descriptionBuf)
+
+// Bound values: NULL (nil) and empty are different PostgreSQL values and both survive the copy.
+//@ func NewPgBoundValue(data []byte, format base.BoundValueFormat) (v base.BoundValue)
+//@   props C12 C14
+//@   safety
+//@   ensures typeis(v, *pgBoundValue) && unbox(v, *pgBoundValue).format == format
+//@   ensures null-preserved: (data == nil) <==> (unbox(v, *pgBoundValue).data == nil)
+//@   ensures copied: len(unbox(v, *pgBoundValue).data) == len(data) && forall(i, 0, len(data), unbox(v, *pgBoundValue).data[i] == data[i])
+//@   ensures fresh-copy: data != nil ==> fresh(unbox(v, *pgBoundValue).data)
